@@ -32,7 +32,7 @@ BUDGET = {"quick": 170, "thorough": 1500}
 JOBS = {"quick": 4, "thorough": 12}
 
 FFT_OPS = {"time_shift", "time_shift_arr", "time_shift_crop", "snippet_frac", "freq_shift", "freq_shift_arr", "coherent", "coherent_ref",
-           "stft", "istft"}
+           "coherent_user_chirp", "stft", "istft"}
 
 
 def _load(evfile, npyfile, slices, cid):
@@ -135,6 +135,14 @@ def build_ops(sig, rng):
                 ref = sig.max_freq
                 add("coherent_ref", lambda z: pb.coherent_dedispersion(z, dm, ref_freq=ref))
                 add("chirp_from_signal", lambda z: dm.chirp_from_signal(z))
+                # a caller-supplied chirp that is itself a lazy array (e.g. loaded from disk): judged like the signal's own chunks
+                box = {"H": np.asarray(dm.chirp_from_signal(sig)), "lazy": None}
+
+                def user_chirp(z, box=box):
+                    lazy = box["lazy"] if isinstance(z.data, da.Array) else None
+                    return pb.coherent_dedispersion(z, dm, chirp=box["H"] if lazy is None else lazy)
+                user_chirp.box = box
+                add("coherent_user_chirp", user_chirp)
     if isinstance(sig, pb.BasebandSignal):
         df = 0.23 * sr
         add("freq_shift", lambda z: pb.freq_shift(z, df))
@@ -183,7 +191,7 @@ def meta_equal(ctx, o, a, b, feats):
 def wl_ops(ctx, idx, rng):
     clsname = gen.CLASS_NAMES[idx % 6]
     n = int(gen.pick(rng, [9, 16, 27, 64, 100]))
-    nchan = None if clsname == "Signal" else int(gen.pick(rng, [1, 2, 3, 4]))
+    nchan = None if clsname == "Signal" else int(gen.pick(rng, [1, 2, 3, 4, 6, 12]))
     dtype = None
     sig_np, desc = gen.make_signal(rng, clsname, n, nchan=nchan, dtype=dtype, rate=gen.rand_rate(rng, lo=3, hi=7),
                                    fc=None if clsname == "Signal" else gen.rand_freq(rng, 3e8, 3e9),
@@ -199,6 +207,11 @@ def wl_ops(ctx, idx, rng):
     with probes.quiet():
         xd = sent.array(x, chunks)
         sig_da = type(sig_np).like(sig_np, xd)
+        if hasattr(fn, "box"):
+            sent_c = Sentinel(ctx.scratch, f"{idx}c")
+            sent_c.ev = sent.ev
+            H = fn.box["H"]
+            fn.box["lazy"] = sent_c.array(H, gen.rand_chunks(rng, H.shape))
     sched = ["synchronous", "threads", "threads", "processes"][idx % 4] if (idx % 8 == 3 or ctx.tier == "thorough") else ["synchronous", "threads"][idx % 2]
     desc.update(op=label, chunks=str(chunks), scheduler=sched, layout=layout)
     ctx.describe_case(desc)
@@ -316,7 +329,7 @@ def wl_ops(ctx, idx, rng):
             ctx.violation(o, f"{label}: results differ between schedulers {list(results)}", None, dict(feats, what="scheduler_dependent"))
     for sc in results:
         ctx.bucket(label, clsname, layout, sc)
-    for f in (sent.ev, sent.npy):
+    for f in (sent.ev, sent.npy, os.path.join(ctx.scratch, f"x-{idx}c.npy")):
         try:
             os.remove(f)
         except OSError:
